@@ -379,6 +379,107 @@ func runSeq(sc *Scenario) string {
 	return ""
 }
 
+// TestC05Enum: every script of up to L moves over {send, close, recv 0, recv 1, burst 2} for every stage, capacity 0/1
+// and two small inputs (one with a repeated element), each followed by the fair completion phase.
+func TestC05Enum(t *testing.T) {
+	L := 5
+	if vk.Tier() == "thorough" {
+		L = 7
+	}
+	alphabet := []Move{{K: "send"}, {K: "close"}, {K: "recv", I: 0}, {K: "recv", I: 1}, {K: "burst", M: 2}}
+	shard, shards := vk.IntEnv("VERIF_SHARD", 0), vk.IntEnv("VERIF_SHARDS", 1)
+	cnt := 0
+	var rec func(prefix []Move)
+	rec = func(prefix []Move) {
+		if len(prefix) == L {
+			cnt++
+			if cnt%shards != shard {
+				return
+			}
+			for _, stage := range c05Stages {
+				for _, c := range []int{0, 1} {
+					for _, in := range [][]int{{1, 2, 3}, {2, 2, 5}} {
+						sc := &Scenario{Prop: "C05", Stage: stage, Mode: "pure", Caps: []int{c}, In: [][]int{in}, A: 1, B: 2, N: 2, Script: append([]Move{}, prefix...)}
+						if stage == "fmap" {
+							sc.Mode = "liftf"
+						}
+						check(t, t, "C05", "TestC05", sc, 1)
+					}
+				}
+			}
+			return
+		}
+		for _, m := range alphabet {
+			rec(append(prefix, m))
+		}
+	}
+	rec(nil)
+	vk.Exhaustive(fmt.Sprintf("all %d scripts of exactly %d moves over {send, close, recv 0, recv 1, burst 2} (shorter ones are their prefixes: invariants run after every move) x 9 stages x capacity {0,1} x inputs {[1 2 3], [2 2 5]}", cnt, L))
+}
+
+// TestC08Enum: every script of L moves over {send, recv, drain, burst 3, recv+send without quiescence} x capacity {0,1,2}
+// x both ways of ending the stream.
+func TestC08Enum(t *testing.T) {
+	L := 5
+	if vk.Tier() == "thorough" {
+		L = 7
+	}
+	alphabet := []Move{{K: "send"}, {K: "recv"}, {K: "drain"}, {K: "burst", M: 3}, {K: "batch", Sub: []Move{{K: "recv"}, {K: "send"}}}}
+	shard, shards := vk.IntEnv("VERIF_SHARD", 0), vk.IntEnv("VERIF_SHARDS", 1)
+	cnt := 0
+	var rec func(prefix []Move)
+	rec = func(prefix []Move) {
+		if len(prefix) == L {
+			cnt++
+			if cnt%shards != shard {
+				return
+			}
+			for _, c := range []int{0, 1, 2} {
+				for _, end := range []string{"cancel", "close"} {
+					sc := &Scenario{Prop: "C08", Stage: "unbound", Mode: end, Caps: []int{c}, Script: append([]Move{}, prefix...)}
+					checkWith(t, t, "C08", "TestC08", sc, ExecUnbound)
+				}
+			}
+			return
+		}
+		for _, m := range alphabet {
+			rec(append(prefix, m))
+		}
+	}
+	rec(nil)
+	vk.Exhaustive(fmt.Sprintf("all %d scripts of exactly %d moves over {send, recv, drain, burst 3, {recv,send} batch} x capacity {0,1,2} x end by cancel / by close of the send side", cnt, L))
+}
+
+// TestC12Enum: every script of L moves over two inputs {send 0, send 1, close 0, close 1, recv} x capacities {0,1}^2.
+func TestC12Enum(t *testing.T) {
+	L := 6
+	if vk.Tier() == "thorough" {
+		L = 8
+	}
+	alphabet := []Move{{K: "send", I: 0}, {K: "send", I: 1}, {K: "close", I: 0}, {K: "close", I: 1}, {K: "recv"}}
+	shard, shards := vk.IntEnv("VERIF_SHARD", 0), vk.IntEnv("VERIF_SHARDS", 1)
+	cnt := 0
+	var rec func(prefix []Move)
+	rec = func(prefix []Move) {
+		if len(prefix) == L {
+			cnt++
+			if cnt%shards != shard {
+				return
+			}
+			for _, caps := range [][]int{{0, 0}, {0, 1}, {1, 1}} {
+				sc := &Scenario{Prop: "C12", Stage: "join", Caps: caps, In: [][]int{{0, 1, 2}, {1000, 1001}}, Script: append([]Move{}, prefix...)}
+				check(t, t, "C12", "TestC12", sc, 1)
+			}
+			return
+		}
+		for _, m := range alphabet {
+			rec(append(prefix, m))
+		}
+	}
+	rec(nil)
+	vk.Exhaustive(fmt.Sprintf("all %d scripts of exactly %d moves over {send 0, send 1, close 0, close 1, recv} on two inputs x capacities {0,0},{0,1},{1,1}", cnt, L))
+}
+
 func TestC06(t *testing.T) {
 	rapid.Check(t, func(rt *rapid.T) { check(t, rt, "C06", "TestC06", genC06(rt), 1) })
 }
